@@ -61,6 +61,27 @@ pub mod plain {
     }
 }
 
+/// A generic pass-through codec module (`with = "dsupport::codecs::pass"`): every function goes
+/// straight to the trait impl, so a field carrying it must behave exactly like the same field
+/// without the attribute (including every lenience the macros grant an `Option<..>` field).
+pub mod pass {
+    use minicbor::decode::{self, Decode, Decoder};
+    use minicbor::encode::{self, CborLen, Encode, Encoder, Write};
+
+    pub fn decode<'b, Ctx, T: Decode<'b, Ctx>>(d: &mut Decoder<'b>, ctx: &mut Ctx) -> Result<T, decode::Error> {
+        d.decode_with(ctx)
+    }
+
+    pub fn encode<Ctx, T: Encode<Ctx>, W: Write>(v: &T, e: &mut Encoder<W>, ctx: &mut Ctx) -> Result<(), encode::Error<W::Error>> {
+        e.encode_with(v, ctx)?;
+        Ok(())
+    }
+
+    pub fn cbor_len<Ctx, T: CborLen<Ctx>>(v: &T, ctx: &mut Ctx) -> usize {
+        v.cbor_len(ctx)
+    }
+}
+
 /// A three-state field type: `Keep` is the nil value (omitted where the format allows, written as
 /// `undefined` otherwise), `Clear` is a *non-nil* value that is written as CBOR null, `Set(n)` an
 /// unsigned integer.  A decoder that treats every null as "absent" confuses `Clear` with `Keep`.
